@@ -182,6 +182,14 @@ func GenJournal(r *RNG, o JGenOpts) (*Journal, []string) {
 	// always at least one A/L account and one equity account
 	accounts = append(accounts, "Assets:"+Pick(r, segs), "Equity:"+Pick(r, []string{"Equity", "Opening", "E"}))
 	accSet[accounts[0]], accSet[accounts[1]] = true, true
+	accrualAcc := "Assets:Accrual"
+	if o.Accruals {
+		if r.Chance(1, 3) {
+			accrualAcc = "Liabilities:Accrued"
+		}
+		accSet[accrualAcc] = true
+		accounts = append(accounts, accrualAcc)
+	}
 	for len(accounts) < nacc {
 		a := Pick(r, typeNames)
 		depth := r.Range(1, 3)
@@ -340,9 +348,9 @@ func GenJournal(r *RNG, o JGenOpts) (*Journal, []string) {
 				t.Targets = &tg
 				tag("performance-annotation")
 			}
-			if o.Accruals && r.Chance(1, 5) {
-				s := day + r.Range(-40, 40)
-				t.Accrual = &JAccrual{Interval: Pick(r, []string{"daily", "weekly", "monthly", "quarterly"}), Start: s, End: s + r.Range(0, 200), Account: openNow[0]}
+			if o.Accruals && r.Chance(1, 4) && st.open[accrualAcc] {
+				s := days[0] + r.Intn(day-days[0]+30)
+				t.Accrual = &JAccrual{Interval: Pick(r, []string{"daily", "weekly", "monthly", "quarterly"}), Start: s, End: s + Pick(r, []int{0, 1, 6, 30, 45, 100, 200}), Account: accrualAcc}
 				tag("accrual")
 			}
 			j.Dirs = append(j.Dirs, t)
@@ -351,7 +359,7 @@ func GenJournal(r *RNG, o JGenOpts) (*Journal, []string) {
 		if r.Chance(1, 2) {
 			var bals []JBal
 			for _, a := range openNow {
-				if !isAL(a) {
+				if !isAL(a) || (o.Accruals && a == accrualAcc) {
 					continue
 				}
 				for _, c := range coms {
@@ -385,6 +393,9 @@ func GenJournal(r *RNG, o JGenOpts) (*Journal, []string) {
 				if k[0] == a && !q.IsZero() {
 					zero = false
 				}
+			}
+			if o.Accruals && (a == accrualAcc || !isAL(a)) {
+				continue // accrual legs are booked on other days: keep these accounts open
 			}
 			if zero && a != accounts[0] && a != accounts[1] {
 				j.Dirs = append(j.Dirs, JDir{Kind: 'c', Date: day, Account: a})
